@@ -26,6 +26,7 @@ KINDS = {
     'encoder_text': 'contracts.parse:replay_encoder_text',
     'spelling': 'contracts.parse:replay_spelling',
     'include_tree': 'contracts.reader:replay_include_tree',
+    'pipeline': 'contracts.pipeline:replay_pipeline',
 }
 
 
@@ -34,7 +35,7 @@ def register(kind, target):
 
 
 _MEMO = {}
-MEMO_KINDS = {'fault_bank', 'dfu', 'cli', 'pass_step', 'compress_rule', 'pseudo_effect', 'data_range', 'expr_eval'}
+MEMO_KINDS = {'pipeline', 'fault_bank', 'dfu', 'cli', 'pass_step', 'compress_rule', 'pseudo_effect', 'data_range', 'expr_eval'}
 
 
 def run(ctx, kind, payload, model):
